@@ -59,8 +59,28 @@ def load_mutants(prop: Optional[str] = None) -> List[dict]:
             if meta.get("status") != "confirmed" or not (mp.parent / "patch.diff").exists():
                 continue
             props = [prop] if prop else [f"C{i:02d}" for i in range(1, 21)]
+            if prop and meta.get("property") != prop and os.environ.get("NV_ALL_BENIGN") != "1":
+                # under another property a refactoring is replayed only when it touches a file that property is anchored in (properties.jsonl)
+                touched = {l[6:].strip() for l in (mp.parent / "patch.diff").read_text().splitlines() if l.startswith("+++ b/")}
+                if not (touched & _anchor_files(prop)):
+                    continue
             out.append(dict(id=f"benign-{meta['benign_id']}", props=props, expect="no-violation", patch=str(mp.parent / "patch.diff"), edits=[]))
     return out
+
+
+_ANCHOR_FILES: Dict[str, set] = {}
+
+
+def _anchor_files(prop: str) -> set:
+    if not _ANCHOR_FILES:
+        try:
+            for line in (VERIF / "properties.jsonl").read_text().splitlines():
+                if line.strip():
+                    d = json.loads(line)
+                    _ANCHOR_FILES[d["id"]] = set(d.get("anchors", {}).get("files", []))
+        except Exception:
+            pass
+    return _ANCHOR_FILES.get(prop, set())
 
 
 def _apply(src_dir: Path, m: dict) -> Optional[str]:
